@@ -1,6 +1,7 @@
 import PvModel.Props.C17
 import PvModel.Props.C17Label
 import PvModel.Props.C17Enforce
+import PvModel.Props.C17Query
 #print axioms Pv.C17_label_values
 #print axioms Pv.C17_map_sum
 #print axioms Pv.C17_plus_bounds
@@ -29,3 +30,7 @@ import PvModel.Props.C17Enforce
 #print axioms Pv.C17_each_assignment_once
 #print axioms Pv.C17_assignments_bijection
 #print axioms Pv.C17_answer_values
+#print axioms Pv.C17_query_program
+#print axioms Pv.C17_path_state_invariants
+#print axioms Pv.C17_query_exactly_once
+#print axioms Pv.C17_query_count
